@@ -443,7 +443,7 @@ struct XUtils : Engine {
         switch (c.kind) { case K_RESOLVE: return "pointer \"" + printable(c.str()) + "\" on " + di; case K_CONSTRUCT: return "construct pointers in " + di; case K_PATCH: { if (c.iv[1] < 0) { std::string x = c.str(); size_t sep = x.find('\x1f'); RV dd, pp; if (sep != std::string::npos && rv_deser(x.substr(0, sep), dd) && rv_deser(x.substr(sep + 1), pp)) return "document " + rv_text(dd) + " patch " + rv_text(pp).substr(0, 200); return "?"; } RV p; rv_deser(c.str(), p); return "document " + di + " patch " + rv_text(p).substr(0, 200); } default: return di + " -> " + dj; }
     }
     void finish(std::map<std::string, std::string>& x) override {
-        x["rule"] = jstr("C15: all documents <= 3 nodes over 13 awkward keys x all pointer strings over {/,~,0,1,2,a,A,-} up to the length bound + special tokens; C16: documents x every single-operation patch over token paths, all two-operation patches over existing/insertable paths, all small JSON values as patch; "
+        x["rule"] = jstr("ladders: member names / tokens / paths of every length 0..300 and around 512 and 1024 (plain, with escapes, non-ASCII), chains 998..1500 deep, awkward-number pairs, trees built plain / with constant keys / with stale member names on array elements; C15: all documents <= 3 nodes over 15 awkward keys x all pointer strings over {/,~,0,1,2,a,A,-} up to the length bound + special tokens; C16: documents x every single-operation patch over token paths, all two-operation patches over existing/insertable paths, all small JSON values as patch; "
                          "C17/C18: all ordered pairs of documents. Every case is compared with the RFC 6901/6902/7396 reference evaluator; non-trivial = cases where the reference designates a node / succeeds / documents differ");
     }
 };
